@@ -1,5 +1,6 @@
 import ALock.Drv.Sem
 import ALock.Drv.Mutex
+import ALock.Drv.RwLock
 
 /-!
 `alock-driver`: reads op lines on stdin, prints one observation line per input line.
@@ -14,6 +15,7 @@ inductive World where
   | empty
   | sem (s : Sem.Sys)
   | mutex (s : Mutex.Sys)
+  | rwlock (s : RwLock.Sys)
 
 def World.create (toks : List String) : World × String :=
   match toks with
@@ -25,6 +27,10 @@ def World.create (toks : List String) : World × String :=
     match Drv.Mutex.create rest with
     | some s => (.mutex s, Drv.obs "ok" [] (Drv.Mutex.snapshot s))
     | Option.none => (.empty, "bad-op")
+  | "rwlock" :: rest =>
+    match Drv.RwLock.create rest with
+    | some s => (.rwlock s, Drv.obs "ok" [] (Drv.RwLock.snapshot s))
+    | Option.none => (.empty, "bad-op")
   | _ => (.empty, "bad-op")
 
 def World.exec (w : World) (toks : List String) : World × String :=
@@ -32,10 +38,12 @@ def World.exec (w : World) (toks : List String) : World × String :=
   | .empty => (w, "bad-op")
   | .sem s => let r := Drv.Sem.exec s toks; (.sem r.1, r.2)
   | .mutex s => let r := Drv.Mutex.exec s toks; (.mutex r.1, r.2)
+  | .rwlock s => let r := Drv.RwLock.exec s toks; (.rwlock r.1, r.2)
 
 def World.label (w : World) (toks : List String) : Option String :=
   match w with
   | .mutex s => Drv.Mutex.label s toks
+  | .rwlock s => Drv.RwLock.label s toks
   | _ => none
 
 def bump (cov : List (String × Nat)) (k : String) : List (String × Nat) :=
